@@ -31,6 +31,7 @@ func checkC06(c *Ctx, r *Report) {
 	c06SlurpEOF(c, r, "C06.R6.slurp-eof")
 	c06GenerateInherits(c, r, "C06.R4.generate-inherits")
 	genericPrefix(c, r, "C06.R6.generic-prefix")
+	ttlUnitsNeedNumbers(c, r, "C06.R3.ttl-units-need-numbers")
 }
 
 // mustPassExit is mustPass restricted to the exits accepted by isExit.
